@@ -695,7 +695,9 @@ fn read_slots(v: &Vol, first_cluster: u32, chain: &[u32]) -> Vec<RawSlot> {
     if first_cluster == 0 && chain.is_empty() {
         // fixed root
         let base = v.g.root_off();
-        let n = v.g.root_entries;
+        // BPB_RootEntCnt*32 "should" fill whole sectors; when it does not, the region reserved for the
+        // root is still RootDirSectors (rounded up) and writers may use the tail, so decode all of it
+        let n = v.g.root_len() / 32;
         let bytes = v.img.bytes(base, (n * 32) as usize);
         for i in 0..n as usize {
             let mut b = [0u8; 32];
